@@ -11,19 +11,19 @@ COMMON_NOTE = ("Trusted: Coq 8.16.1 kernel + vm_compute; tools/gen translator (r
                "the Coq model's executable definitions on the same cases; Go toolchain and third-party libraries. "
                "No axioms declared; Print Assumptions output per theorem is in the evidence file. ")
 
-CHECKS = {
-    "C14": dict(
-        text="Kernel-checked round-trip theorem: the independent TS 29.281/38.415 reference decoder applied to the model of "
-             "gtpv1.Message.Encode returns exactly (version 1, PT, type 255, length, TEID, PDU type, 6-bit QFI, payload) for ALL "
-             "TEIDs, PDU types, QFIs and payloads. The PDU-Session-Container byte expressions are regenerated from msg.go on "
-             "every run (T-gen) and the whole encoder is run against the model on an enumeration of all 64x16 (QFI, PDU type) "
-             "pairs, alignment-boundary lengths and TEID boundaries (T-corr); the reference decoder is also applied as a monitor "
-             "to the implementation's bytes.",
-        note=COMMON_NOTE + "Modelled, not verified: the UDP write of the packet; control flow of Len/Encode is hand-modelled and "
-             "tied by the correspondence run only.",
-        technique="Coq proof (round-trip lemma) + generated byte expressions + differential run vs vm_compute model",
-        design="4/C14"),
-}
+import importlib
+import sys
+sys.path.insert(0, VERIF)
+
+# every checks/cXX.py carries its own MANIFEST dict (text, note, technique, design[, partial])
+CHECKS = {}
+for pid in ALL:
+    if os.path.exists(os.path.join(VERIF, "checks", pid.lower() + ".py")):
+        mod = importlib.import_module("checks." + pid.lower())
+        if getattr(mod, "MANIFEST", None):
+            c = dict(mod.MANIFEST)
+            c["note"] = COMMON_NOTE + c.get("note", "")
+            CHECKS[pid] = c
 
 NA_REASON = "check not built yet (work in progress; see DESIGN.md section 4)"
 
